@@ -10,6 +10,7 @@
 package c15
 
 import (
+	"bytes"
 	"crypto/tls"
 	"fmt"
 	"testing"
@@ -155,20 +156,31 @@ func execute(t *testing.T, c Case) (kind, detail string) {
 		if c.Endpoint == "dns" {
 			bubble.Advance(20 * time.Second)
 		}
-		payload := world.Payload(0x42, 0, 1000)
 		for i, g := range goods {
+			// each client sends its own pattern; which target connection belongs to which client is
+			// decided by arrival order at the server, so the target is identified by content
+			payload := world.Payload(byte(0x42+i), 0, 1000)
 			g.app.StartWrite(payload)
 			bubble.Wait()
 			if c.Endpoint == "dns" {
 				bubble.Advance(20 * time.Second)
 			}
-			tg := w.Chans[0].Target(i)
-			if tg == nil {
-				kind, detail = "blocked-by-stalled-peer", fmt.Sprintf("well-behaved client %d did not get a logical connection while %d staller(s) are connected (%s); logs=%q", i, c.Stallers, c.Stall, bubble.RecentLogs())
+			var tg *world.Endpoint
+			most := 0
+			for j := 0; j < w.Chans[0].NumTargets(); j++ {
+				t := w.Chans[0].Target(j)
+				b := t.Bytes()
+				if len(b) > 0 && bytes.HasPrefix(payload, b) {
+					tg = t
+					most = len(b)
+				}
+			}
+			if w.Chans[0].NumTargets() < i+1 || tg == nil {
+				kind, detail = "blocked-by-stalled-peer", fmt.Sprintf("well-behaved client %d did not get a working logical connection while %d staller(s) are connected (%s): %d target connection(s), none carrying its bytes; logs=%q", i, c.Stallers, c.Stall, w.Chans[0].NumTargets(), bubble.RecentLogs())
 				return
 			}
-			if got := tg.Obs().Got; got != 1000 {
-				kind, detail = "blocked-by-stalled-peer", fmt.Sprintf("well-behaved client %d: target received %d of 1000 bytes", i, got)
+			if most != 1000 {
+				kind, detail = "blocked-by-stalled-peer", fmt.Sprintf("well-behaved client %d: target received %d of 1000 bytes", i, most)
 				return
 			}
 			tg.StartWrite(tg.Bytes()) // echo
